@@ -415,3 +415,13 @@ Proof.
   exists m0. split; [reflexivity|]. split; [discriminate|].
   vm_compute in E. injection E as <-. split; vm_compute; auto 10.
 Qed.
+
+(* the leading track never loses a unit: log ++ look-ahead grows by exactly the offered unit *)
+Corollary spec_leading_keeps_everything cf sp ti smp0 x :
+  nth_error (sp_trk sp) ti = Some x -> 0 <= s_dts (sp_incoming cf smp0) ->
+  exists x', nth_error (sp_trk (sp_unit cf true sp ti smp0)) ti = Some x'
+             /\ map core (kept x') = map core (kept x) ++ [core (sp_incoming cf smp0)].
+Proof.
+  intros Hx Hpos. destruct (spec_unit_conservation cf true sp ti smp0 x Hx Hpos) as [(x' & A & _ & B & _) _].
+  exists x'. split; [exact A|exact B].
+Qed.
